@@ -171,7 +171,8 @@ def header_directory(context, name, include=None, lang=None, *, system=False,
         lang = name.lang
 
     path = _directory_path(context, name)
-    files = _find(context, path, include, type='f', dist=dist, **kwargs)
+    files = _find(context, path, include, type='f', dist=dist,
+                  file_type=header_file, **kwargs)
     langs = uniques(i.lang for i in files if i.lang) if files else lang
 
     params = [('files', files), ('system', system), ('langs', langs)]
